@@ -218,6 +218,9 @@ func init() {
 	libModels["constant.UnaryOp"] = func(x *Exec, st *State, e *ast.CallExpr, a []Value, _ []types.Type) (Value, bool) {
 		return Term{"(constUnaryOp " + asTerm(a[0]).S + " " + asTerm(a[1]).S + " " + asTerm(a[2]).S + ")", SInt}, true
 	}
+	libModels["constant.Compare"] = func(x *Exec, st *State, e *ast.CallExpr, a []Value, _ []types.Type) (Value, bool) {
+		return x.uf("constCompare", SBool, asTerm(a[0]), asTerm(a[1]), asTerm(a[2])), true
+	}
 	libModels["constant.Shift"] = func(x *Exec, st *State, e *ast.CallExpr, a []Value, _ []types.Type) (Value, bool) {
 		return Term{"(constShift " + asTerm(a[0]).S + " " + asTerm(a[1]).S + " " + asTerm(a[2]).S + ")", SInt}, true
 	}
